@@ -8,7 +8,7 @@
 (*   {"k":"set", allowed, disallowed, hosts}     one POST /control/access/set *)
 (*   {"k":"req", areq, lvl, out [, d]}           one DNS request           *)
 (*                                                                         *)
-(* Every line must be a step of Access.tla: a "set" line is SetAccess      *)
+(* Every line must be a step of Access.tla: a "set" line is SetLists       *)
 (* (disjoint lists, nothing observed), a "req" line is Request(r, out)     *)
 (* with out \in Outcomes(cfg, r) -- AccessCore's own operator -- and, for  *)
 (* requests that went through a real transport (lvl = "transport"), the    *)
@@ -42,7 +42,7 @@ ReqOk(ln) ==
     /\ ln.out \in Outcomes(cfg, ReqOf(ln))
     /\ (ln.lvl = "transport" => ln.d = Moved(Effect(ln.out)))
 
-\* The logged step is a SetAccess step of Access.tla (the API accepted it, so
+\* The logged step is a SetLists step of Access.tla (the API accepted it, so
 \* the lists must have been disjoint).
 SetOk(ln) == ToSet(ln.allowed) \cap ToSet(ln.disallowed) = {}
 
